@@ -368,20 +368,25 @@ def worker_facts(server, cc_consts):
                     fail = ast.literal_eval(k.value)
                 elif k.arg != "fail_info":
                     raise Unclassified(f"{w.name}: ConnectionConditions keyword {k.arg}")
+            # the local name bound to the detached data stream (`<name> = connection.data_connection`):
+            # found by what it is bound to, not by how it is spelled
+            bound = [
+                n.targets[0].id
+                for n in own_nodes(w)
+                if isinstance(n, ast.Assign) and len(n.targets) == 1 and isinstance(n.targets[0], ast.Name)
+                and is_attr(n.value, "connection", "data_connection")
+            ]
+            if len(set(bound)) != 1:
+                raise Unclassified(f"{w.name}: stream is not connection.data_connection")
+            var = bound[0]
             ops = []
             for n in own_nodes(w):
-                if isinstance(n, ast.Call) and isinstance(n.func, ast.Attribute) and isinstance(n.func.value, ast.Name) and n.func.value.id == "stream":
+                if isinstance(n, ast.Call) and isinstance(n.func, ast.Attribute) and isinstance(n.func.value, ast.Name) and n.func.value.id == var:
                     op = {"iter_by_block": "read", "iter_by_line": "readline"}.get(n.func.attr, n.func.attr)
                     if op not in ("read", "readline", "readexactly", "write", "close"):
                         raise Unclassified(f"{w.name}: stream.{n.func.attr}")
                     if op not in ops:
                         ops.append(op)
-            detach = any(
-                isinstance(n, ast.Assign) and src(n.targets[0]) == "stream" and is_attr(n.value, "connection", "data_connection")
-                for n in own_nodes(w)
-            )
-            if not detach:
-                raise Unclassified(f"{w.name}: stream is not connection.data_connection")
             out.append((w.name, m.name, fields, wait, fail, ops))
     if not out:
         raise Unclassified("no @worker functions found")
